@@ -3,6 +3,7 @@
 //! usage: dbg-harness <property> <seed> <quick|thorough> <shard> <nshards> <outfile>
 mod c01;
 mod c03;
+mod c04;
 mod c07;
 mod c08;
 mod c09;
@@ -67,7 +68,11 @@ fn main() {
             "C08" => c08::c08(&mut out, &mut rng, &tier),
             "C09" => c09::c09(&mut out, &mut rng, &tier),
             "C05" => c05::c05(&mut out, &mut rng, &tier),
-            "C06" => c05::c06_filter(&mut out, &mut rng, &tier),
+            "C06" => {
+                c05::c06_filter(&mut out, &mut rng, &tier);
+                c04::c06_graph(&mut out, &mut rng, &tier)
+            }
+            "C04" => c04::c04(&mut out, &mut rng, &tier),
             "C20" => c20::c20(&mut out, &mut rng, &tier),
             _ => {
                 eprintln!("unknown property {}", prop);
